@@ -185,6 +185,9 @@ def arith(it, opn, a, b, node):
             return r
         u = Unk(t, space=_space(a, b))
         u.fresh = True
+        rk_ = [getattr(x_, "rank", None) for x_ in (a, b) if getattr(x_, "rank", None) is not None]
+        if rk_:
+            u.rank = max(rk_)
         return u
     u = Unk(mk(opn, to_term(a), to_term(b)), space=_space(a, b))
     u.fresh = True
@@ -539,6 +542,15 @@ def getitem(it, base, idx, node, fr):
             if isinstance(lo, str) and isinstance(hi, str) and base.order is not None:
                 i0, i1 = base.order.index(lo), base.order.index(hi)
                 return frame_select(it, base, base.order[i0:i1 + 1], node)
+        if isinstance(idx, Val) and idx.term.op == "sym" and not idx.series:
+            # a column named by a parameter (feature_id, metric_id, ...)
+            t_ = call("col", const(base.name), idx.term)
+            if base.filters:
+                t_ = T("sel", t_, *base.filters)
+            v_ = Val(t_, space=base.space, series=True)
+            v_.of_frame = base
+            v_.colname_term = idx.term
+            return v_
         if is_mask(idx):
             return filter_frame(it, base, idx, node)
         if isinstance(idx, Seq) and getattr(idx, "of_frame", None) is not None:
@@ -652,6 +664,12 @@ def val_getitem(it, v, idx, node):
             return r
         r = Val(v.term, space=Space("slice", parent=v.space, how="slice"), pos_of=v.pos_of)
         r.slice_of = (v, idx)
+        return r
+    if getattr(idx, "scalar_pos", False) or getattr(idx, "is_scalar_index", False):
+        r = Val(call("elem", v.term, to_term(idx)))
+        r.elem_of = v
+        r.elem_index = idx
+        it.record("index", "element", [v, idx], {}, node)
         return r
     if is_pyconst(idx):
         r = Val(call("elem", v.term, to_term(idx)), pos_of=None)
@@ -858,6 +876,13 @@ def frame_set_columns(it, f, value, node):
     except NotConst:
         f.order = None
         f.notes.append(("columns-renamed-unknown", 0))
+        it.record("setcolumns", "columns", [f, value], {}, node)
+        return
+    if getattr(f, "int_columns", False) and not f.written:
+        # a table read without a header: its width is whatever the file has; naming k columns asserts width k
+        f.cols = {n: sym(f"csv:{i}") for i, n in enumerate(names)}
+        f.order = list(names)
+        f.int_columns = False
         it.record("setcolumns", "columns", [f, value], {}, node)
         return
     old = f.names()
